@@ -37,6 +37,32 @@ CHECKS["C11"] = (
     "DESIGN.md section 6, C11",
 )
 
+CHECKS["C13"] = (
+    "exhaustive enumeration of split configurations and layouts + Hypothesis-generated fits; exact-cover/routing/selection oracles",
+    "Exhaustive over 16 flag combinations x gaussian on/off x 4 season maps x 3 weekday maps x 4 data shapes for the candidate "
+    "generator (exact cover, unsplit present, nothing forbidden or unsupported) and over all 48 exact-cover layouts for routing "
+    "(every date of a leap and a non-leap year, parameter-built models); generated fits (legacy, billing, current, developer "
+    "criteria) for the selection clause with an independent recomputation of the criterion.",
+    "Trusted: vf/ref/daily_curve.py routing table, restated BIC; candidate generator reached through private methods for the cross product.",
+    "DESIGN.md section 6, C13",
+)
+CHECKS["C19"] = (
+    "Hypothesis-generated billing models and reporting data; independent aggregation of the daily frame as reference",
+    "Generated-input search: parameter-built billing models x reporting data (daily input or billing reads, partial months, "
+    "gaps, with/without usage, 7 zones) x aggregation arguments; the aggregated frame is compared with an independent fsum-based "
+    "aggregation of the daily frame (period stamps, sums, mean, root-sum-square, span totals) and invalid arguments must be rejected.",
+    "Trusted: ref_aggregate in vf/props/c19.py; the daily frame itself is judged by C01/C07.",
+    "DESIGN.md section 6, C19",
+)
+CHECKS["C07"] = (
+    "Hypothesis-generated missing-data patterns on parameter-built daily/billing models; row-wise masking predicate",
+    "Generated-input search over reporting frames with arbitrary patterns of missing / non-finite temperature and missing usage "
+    "(daily input, billing reads), daily and billing models, all billing aggregations: predicted and observed must be finite on "
+    "exactly the same rows, never on a temperature-less day, and column sums must equal row-wise savings.",
+    "Trusted: numpy isfinite bookkeeping in vf/props/c07.py.",
+    "DESIGN.md section 6, C07",
+)
+
 PENDING_REASON = "check not built yet in this session (work in progress; property-based testing applies and is planned, see DESIGN.md section 6)"
 
 
